@@ -1099,6 +1099,12 @@ class Container:
         total_quantity = kwargs.get('total_quantity', None)
 
         original_solvent = solvent
+        # The solvent (portion) is taken to contribute none of the solutes: a solute that is its own solvent, or a
+        # solvent container which already holds some of a solute, would make every stated value wrong.
+        if isinstance(solvent, Substance) and solvent in solute:
+            raise ValueError("Solution is impossible to create. (Solute and solvent must be different.)")
+        if isinstance(solvent, Container) and any(solvent.contents.get(substance, 0) > 0 for substance in solute):
+            raise ValueError("Solution is impossible to create. (The solvent container already holds a solute.)")
         if isinstance(solvent, Container):
             # Calculate mol_weight and density of solvent
             # get total mass of solvent
